@@ -865,7 +865,7 @@ func (g *gen) gcCase(class string) *Case {
 		t++
 		c.Script = append(c.Script, Op{Op: "begin", T: t})
 		primary := tk[0]
-		states := []string{"async-all", "async-missing", "async-missing", "async-rolledback-sec", "async-committed-sec", "async-primary-gone", "2pc-committed", "2pc-pending", "pess"}
+		states := []string{"async-all", "async-missing", "async-missing", "async-rolledback-sec", "async-committed-sec", "async-primary-gone", "2pc-committed", "2pc-pending", "pess", "stale-pess", "stale-pess"}
 		if class == "order" {
 			states = []string{"async-missing", "async-rolledback-sec", "async-committed-sec", "async-all"}
 		}
@@ -932,6 +932,21 @@ func (g *gen) gcCase(class string) *Case {
 		case "2pc-pending":
 			for _, k := range tk {
 				pw(k, false, false)
+			}
+		case "stale-pess": // tidb#42937: pessimistic leftovers with a stale primary field next to prewrite locks of the same transaction
+			npw := 1 + g.r.Intn(len(tk)-1)
+			for _, k := range tk[:npw] {
+				pw(k, false, false)
+			}
+			for _, k := range tk[npw:] {
+				p := string(g.key()) + "y"
+				if len(free) > 0 && g.r.Intn(2) == 0 {
+					p = free[g.r.Intn(len(free))] // an existing key outside this transaction (lock-free at this point)
+				}
+				c.Script = append(c.Script, Op{Op: "pesslock", T: t, Key: h(k), Primary: h(p)})
+			}
+			if g.r.Intn(3) > 0 {
+				c.Script = append(c.Script, Op{Op: "commit", T: t, Key: h(primary)})
 			}
 		case "pess":
 			for _, k := range tk {
